@@ -171,6 +171,15 @@ func Explore(r *ev.Run, cfg Config) Result {
 		return Result{}
 	}
 	res, diverged := explore(r, cfg)
+	if atomic.LoadInt32(&keyTrouble) != 0 && cfg.Workers != 1 && !ev.Single() {
+		// a fingerprint (reflection over the object graph) panicked: state that the code under test shares
+		// between instances (a package-level arena reachable from every instance) was being changed by
+		// another worker's instance while it was read. The search is repeated with ONE worker.
+		r.Set("single_worker_fallback", "a fingerprint was disturbed by another worker's instance writing to state shared between instances; "+cfg.Name+" was searched again with one worker")
+		cfg.Workers = 1
+		atomic.StoreInt32(&keyTrouble, 0)
+				res, diverged = explore(r, cfg)
+	}
 	if diverged {
 		r.Add("layout_fallback_configs", 1)
 		r.Set("layout_fallback", "the concrete layout of "+cfg.Name+" is not a function of the operation history (replaying one path gave two fingerprints); states identified by reference-model state x last operation instead")
@@ -181,6 +190,9 @@ func Explore(r *ev.Run, cfg Config) Result {
 	}
 	return res
 }
+
+// keyTrouble: a fingerprint computation panicked in a run with several workers (see Explore).
+var keyTrouble int32
 
 func explore(r *ev.Run, cfg Config) (Result, bool) {
 	if cfg.MaxStates == 0 {
@@ -298,6 +310,15 @@ func explore(r *ev.Run, cfg Config) (Result, bool) {
 						var key [16]byte
 						if fl == nil {
 							fl = safe(func() *Fail { key = keyOf(&cfg, s, op); return nil })
+							if fl != nil {
+								// not a verdict about the code: see keyTrouble
+								if cfg.Workers == 1 || ev.Single() {
+									ev.Infra("%s: the fingerprint of the object graph panicked although no other worker was running: %s", cfg.Name, fl.Msg)
+								}
+								atomic.StoreInt32(&keyTrouble, 1)
+								atomic.StoreInt32(&diverged, 2)
+								return
+							}
 						}
 						if fl == nil && !cfg.NoTwin {
 							// instance isolation: for a state not seen before, a second, unrelated instance is
@@ -309,7 +330,19 @@ func explore(r *ev.Run, cfg Config) (Result, bool) {
 							seenMu.Unlock()
 							if !old {
 								fl = safe(func() *Fail {
-									before := md5.Sum([]byte(s.Key()))
+									tryKey := func() (k [16]byte, ok bool) {
+										defer func() {
+											if recover() != nil {
+												ok = false
+											}
+										}()
+										return md5.Sum([]byte(s.Key())), true
+									}
+									before, ok := tryKey()
+									if !ok {
+										atomic.StoreInt32(&keyTrouble, 1)
+										return nil
+									}
 									t := cfg.New()
 									for _, p := range full {
 										if f := t.Apply(p); f != nil {
@@ -321,7 +354,12 @@ func explore(r *ev.Run, cfg Config) (Result, bool) {
 											break
 										}
 									}
-									if md5.Sum([]byte(s.Key())) != before {
+									after, ok := tryKey()
+									if !ok {
+										atomic.StoreInt32(&keyTrouble, 1)
+										return nil
+									}
+									if after != before {
 										// memory reachable from this instance changed. That alone is not a defect (a
 										// common allocator or cache no call sequence can observe is allowed): it is one
 										// only if it can be OBSERVED, now or after one further operation on this instance
@@ -394,8 +432,8 @@ func explore(r *ev.Run, cfg Config) (Result, bool) {
 			}(slots[w])
 		}
 		wg.Wait()
-		if atomic.LoadInt32(&diverged) != 0 {
-			return res, true
+		if d := atomic.LoadInt32(&diverged); d != 0 {
+			return res, d == 1
 		}
 		if overCap {
 			res.Exhaustive = false
